@@ -191,6 +191,33 @@ def run(ctx):
                         res.violations.append(vlib.Violation("the argument is not read as the model reads it (a prefix, taken as it is)", inp,
                                                              expected={k.decode("latin1"): v for k, v in want.items()},
                                                              observed={"rc": ra["rc"], "marks": {k.decode("latin1"): v for k, v in ra["marks"].items()}}))
+        # the value of a fixed-pattern flag: the model's parse_bool against strconv.ParseBool, and `--FLAG=VALUE` against the
+        # plain flag of the polarity the model computes (or a failure when the value is not a boolean)
+        BV = [b"1", b"t", b"T", b"TRUE", b"true", b"True", b"0", b"f", b"F", b"FALSE", b"false", b"False", b"yes", b"no", b"2", b"", b"tRUE", b"true ", b" 1", b"on", b"y", b"01", b"-1", b"FaLsE", b"T\n"]
+        pa = vlib.batch(ctx["bins"]["api"], ["parsebool " + vlib.hx(v) for v in BV])
+        pm = vlib.batch(ctx["modelrun"], ["parsebool " + vlib.hx(v) for v in BV])
+        for v, a_, m_ in zip(BV, pa, pm):
+            res.case(("parsebool", v), True)
+            if a_ != m_:
+                res.violations.append(vlib.Violation("the model's parse_bool differs from strconv.ParseBool", {"value": v.decode("latin1")}, expected=m_, observed=a_))
+        for flag, plain_same, plain_inv in (("--tags", ["--tags"], ["--no-tags"]), ("--no-branches", ["--no-branches"], ["--branches"]), ("--remotes", ["--remotes"], ["--no-remotes"])):
+            base = {k: RC.run_refs_case(eng, xrefs, [], xcfg, list(c_), [], 0, extra_args=["--json", "--no-progress"]) for k, c_ in (("same", plain_same), ("inv", plain_inv))}
+            for v, m_ in zip(BV, pm):
+                if b"\n" in v:
+                    continue
+                ra = RC.run_refs_case(eng, xrefs, [], xcfg, [flag + "=" + v.decode("latin1")], [], 0, extra_args=["--json", "--no-progress"])
+                ncli += 1
+                res.case(("flag-value", flag, v), True)
+                inp = {"cli": [flag + "=" + v.decode("latin1")], "refs": [r_.decode("latin1") for r_ in xrefs], "model_parse_bool": m_}
+                if m_ == "ERR":
+                    if ra["rc"] == 0:
+                        res.violations.append(vlib.Violation("a flag value that is not a boolean is accepted", inp, expected="non-zero exit"))
+                    continue
+                rb = base["same" if m_ == "true" else "inv"]
+                if ra["rc"] != 0 or (ra["marks"], ra["out"]) != (rb["marks"], rb["out"]):
+                    res.violations.append(vlib.Violation("a flag with an explicit boolean value does not have the polarity the model computes", dict(inp, equivalent=rb["cli"]),
+                                                         expected={k.decode("latin1"): v_ for k, v_ in rb["marks"].items()},
+                                                         observed={"rc": ra["rc"], "marks": {k.decode("latin1"): v_ for k, v_ in ra["marks"].items()}}))
         for it in range(150 if quick else 2500):
             refs = RC.gen_refs(rng)
             defs, cfg = RC.gen_groupdefs(rng, deep=(it % 7 == 0))
